@@ -30,11 +30,14 @@ CANARIES = {
                           "              if r['target'] not in ids['sense'].__ior__(ids['synset'])}"),
     'w403-ignores-dctype': ('wn.validate', "            (ss['id'], r['relType'], r['target'], _get_dc_type(r))\n            for ss, r in _synset_relations(lex)",
                             "            (ss['id'], r['relType'], r['target'], None)\n            for ss, r in _synset_relations(lex)"),
+    'synset-from-any-lexicon': ('wn._add', "      FROM synsets AS ss\n     WHERE ss.id = ?\n       AND ss.lexicon_rowid = ?",
+                                "      FROM synsets AS ss\n     WHERE ss.id = ?\n       AND ss.lexicon_rowid >= 0 AND ? IS NOT NULL"),
     'select-category': ('wn.validate', "if code in selectset or code[0] in selectset]",
                         "if code in selectset or code[:2] in selectset]"),
 }
 rt.setup(canaries=CANARIES)
 
+import sqlite3  # noqa: E402
 import wn  # noqa: E402,F401
 from wn import validate as V  # noqa: E402
 from wn import constants as K  # noqa: E402
@@ -613,6 +616,47 @@ def h_w403_mixed(b1: bool, b2: bool, b3: bool, b4: bool, d1: bool, d2: bool, d3:
     return rt.verdict(ok)
 
 
+REJ_SYNSET = ['a', 'b', 'zz']        # zz: not a synset of the new lexicon
+REJ_TARGET = ['b', 's', 'zz', 'yy']  # a synset, a sense, two ids that are neither
+
+
+def h_add_rejects(k_syn: int, k_t1: int, k_t2: int, other_has: bool) -> bool:
+    """
+    pre: 0 <= k_syn < 3 and 0 <= k_t1 < 4 and 0 <= k_t2 < 3
+    post: _
+    """
+    # the last sentence of the property: E204 / E401 reported => add() rejects the lexicon,
+    # whatever else is installed (another lexicon may own a synset with the dangling id)
+    from vf import docs
+    syn, t1, t2 = REJ_SYNSET[0], REJ_TARGET[0], REJ_SYNSET[0]
+    for n in range(4):
+        if k_syn == n:
+            syn = REJ_SYNSET[n]
+        if k_t1 == n:
+            t1 = REJ_TARGET[n]
+        if k_t2 == n:
+            t2 = REJ_SYNSET[n]
+    lex = _lex([_entry('e', 'w', [_sense('s', 'a', [_rel(t1, 'also')]), _sense('t', syn)])],
+               [_synset('a', relations=[_rel(t2, 'also')]), _synset('b')], lid='N')
+    rep = V.validate(lex, select=['E204', 'E401'], progress_handler=None)
+    reported = len([k for k in rep['E204']['items']]) > 0 or len([k for k in rep['E401']['items']]) > 0
+    db = rt.DB()
+    rt.stub_normalizer()
+    other = _lex([], [_synset('a'), _synset('b')] + ([_synset('zz'), _synset('yy')] if other_has else []),
+                 lid='O')
+    rt.quiet_add(docs.resource([other], '1.0'))
+    before = db.dump()
+    rejected = False
+    try:
+        rt.quiet_add(docs.resource([lex], '1.0'))
+    except (wn.Error, sqlite3.IntegrityError):
+        rejected = True
+    ok = True
+    if reported:
+        ok = rejected and db.dump() == before and [lx.id for lx in wn.lexicons()] == ['O']
+    return rt.verdict(ok)
+
+
 def h_reverse_table(k: int) -> bool:
     """
     pre: 0 <= k < 200
@@ -698,6 +742,16 @@ OBLIGATIONS = [
        canary=[('w403-ignores-dctype', 0)], functions=['wn.validate._redundant_relation', '_multiples'],
        symbolic='four relations of one synset: target (2 values) and presence of dc:type each',
        bounds='redundant = same source, type, target and dc:type; never raises'),
+    Ob('add-rejects', 'h_add_rejects', quick=dict(timeout=250), thorough=dict(timeout=600),
+       canary=[('synset-from-any-lexicon', 0)],
+       functions=['wn.validate._missing_synset', '_missing_relation_target',
+                  'wn._add.add_lexical_resource', '_insert_senses', '_insert_synset_relations',
+                  '_insert_sense_relations', 'SYNSET_QUERY / SENSE_QUERY'],
+       stubs=['vf.sqlmodel', 'normalize_form = identity'],
+       symbolic='the synset a sense refers to, the target of a sense relation and of a synset '
+                'relation (existing or dangling), whether another installed lexicon owns synsets '
+                'with the dangling ids',
+       bounds='E204 or E401 reported => add() raises, the database is unchanged'),
     Ob('reverse-table', 'h_reverse_table', quick=dict(timeout=60), canary=None,
        functions=['wn.constants.REVERSE_RELATIONS'], symbolic='table index',
        bounds='every key of the table'),
